@@ -276,6 +276,70 @@ def lastTime (t : Nat) : List Event → Nat
   | [] => t
   | e :: es => lastTime e.cfg.now es
 
+/-! ## Part 1 — a process that keeps running: renewal at run time
+
+`maintenance()` (maintain.go) calls `renewCerts` every 10 minutes in the process a start-up left
+running, with that process's configured lifetime and ITS IN-MEMORY certificates — which are not
+re-read from storage. -/
+
+/-- one pass of `renewCerts` in a running process -/
+def tickRun (ord : Order) (now : Nat) (f : Option Fault) (life : Nat) (m : Mem) (d : Disk) : Res Mem :=
+  exec f (renew ord ⟨now, life⟩ m) (boot d)
+
+inductive Step
+  | start (e : Event)                        -- the running process (if any) is gone; a new one starts
+  | tick (now : Nat) (fault : Option Fault)  -- the running process (if any) runs one maintenance pass
+deriving DecidableEq, Repr
+
+def Step.now : Step → Nat
+  | .start e => e.cfg.now
+  | .tick n _ => n
+
+def Res.disk (r : Res α) : Disk := ⟨r.sys.store, r.sys.fresh⟩
+
+def Res.mem? : Res Mem → Option Mem
+  | .ok m _ => some m
+  | _ => none
+
+/-- the storage, and the memory + configured intermediate lifetime of the running process -/
+structure World where
+  disk : Disk
+  proc : Option (Mem × Nat)
+
+def World.empty : World := ⟨Disk.empty, none⟩
+
+def World.step (ord : Order) : Step → World → World
+  | .start e, w => ⟨(e.run ord w.disk).disk, ((e.run ord w.disk).mem?).map fun m => (m, e.cfg.life)⟩
+  | .tick now f, w =>
+    match w.proc with
+    | none => w
+    | some (m, life) =>
+      ⟨(tickRun ord now f life m w.disk).disk, ((tickRun ord now f life m w.disk).mem?).map fun m' => (m', life)⟩
+
+def runSteps (ord : Order) : List Step → World → World
+  | [], w => w
+  | st :: sts, w => runSteps ord sts (w.step ord st)
+
+def StepsMonotone (t : Nat) : List Step → Prop
+  | [] => True
+  | st :: sts => t ≤ st.now ∧ StepsMonotone st.now sts
+
+def lastStepTime (t : Nat) : List Step → Nat
+  | [] => t
+  | st :: sts => lastStepTime st.now sts
+
+/-- the intermediate certificate the running process holds is the stored one -/
+def World.synced (w : World) : Prop :=
+  match w.proc with
+  | none => True
+  | some (m, _) => w.disk.store .intCrt = some m.inter.crt
+
+/-- … at every maintenance pass of the history -/
+def SyncedAtTicks (ord : Order) : List Step → World → Prop
+  | [], _ => True
+  | .start e :: sts, w => SyncedAtTicks ord sts (w.step ord (.start e))
+  | .tick n f :: sts, w => w.synced ∧ SyncedAtTicks ord sts (w.step ord (.tick n f))
+
 /-! ## Part 2 — config autosave -/
 
 inductive File
